@@ -173,6 +173,7 @@ func subOverflows(a, b Integer) bool {
 //@ loop 1 invariant len(intp.scanners) == old(len(intp.scanners)) && (forall i :: 0 <= i && i < len(intp.scanners) ==> intp.scanners[i] == old(intp.scanners[i]))
 //@ loop 1 invariant [C11.frame] !(old(execProc) && old(intp.execStackDepth) >= 100) && intp.MaxOps == old(intp.MaxOps) && intp.CheckStart == old(intp.CheckStart)
 //@ loop 1 invariant [C11.frame] (old(execProc) ==> intp.execStackDepth == old(intp.execStackDepth) + 1) && (!old(execProc) ==> intp.execStackDepth == old(intp.execStackDepth))
+//@ loop 1 back-when [C03.tail-deferred] live(val) || !execProc
 //@ loop 1 invariant [C11.budget] eoFirstTrip(intp, obj, old(obj), execProc, old(execProc)) || (objWF(obj) && eoBenign(intp, old(obj)) && budgetOK(intp))
 //@ loop 2 invariant topScanWF(intp)
 //@ loop 2 invariant len(intp.errors) == old(len(intp.errors))
@@ -349,3 +350,29 @@ func subOverflows(a, b Integer) bool {
 //@ ensures [C02.abs.int] old(depth(intp)) >= 1 && isInt(old(top(intp, 0))) && asInt(old(top(intp, 0))) != math.MinInt ==> result == nil && depth(intp) == old(depth(intp)) && isInt(top(intp, 0)) && asInt(top(intp, 0)) >= 0 && (asInt(top(intp, 0)) == asInt(old(top(intp, 0))) || asInt(top(intp, 0)) == -asInt(old(top(intp, 0)))) && stackFrame(intp, 1)
 //@ ensures [C02.abs.promote] old(depth(intp)) >= 1 && isInt(old(top(intp, 0))) && asInt(old(top(intp, 0))) == math.MinInt ==> result == nil && isReal(top(intp, 0)) && asReal(top(intp, 0)) == -Real(asInt(old(top(intp, 0))))
 //@ ensures [C02.abs.type] old(depth(intp)) >= 1 && !isInt(old(top(intp, 0))) && !isReal(old(top(intp, 0))) ==> isPSErr(result, eTypecheck)
+
+// ---------------------------------------------------------------------
+// C03: procedures, name lookup and control flow
+
+//@ func (*Interpreter).Execute
+//@ ensures [C03.toplevel] result != errExit && result != errStop
+
+//@ func bIf
+//@ ensures [C03.if.false] old(depth(intp)) >= 2 && isBool(old(top(intp, 1))) && !bool(old(top(intp, 1)).(Boolean)) ==> result == nil && depth(intp) == old(depth(intp)) - 2 && intp.NumOps == old(intp.NumOps) && stackFrame(intp, 2)
+
+//@ func bIfelse
+//@ ensures [C03.ifelse.type] old(depth(intp)) >= 3 && !isBool(old(top(intp, 2))) ==> isPSErr(result, eTypecheck)
+
+//@ func bFor
+//@ ensures [C03.exit-scoped] result != errExit
+//@ loop 1 exit-when [C03.for.exit] (increment > 0 && val > limit) || (increment < 0 && val < limit) || (live(err) && err == errExit)
+
+//@ func bRepeat
+//@ ensures [C03.exit-scoped] result != errExit
+//@ loop 1 exit-when [C03.repeat.exit] i >= count || (live(err) && err == errExit)
+
+//@ func bLoop
+//@ ensures [C03.exit-scoped] result != errExit
+
+//@ func bForall
+//@ ensures [C03.exit-scoped] result != errExit
